@@ -13,6 +13,10 @@ def evaluate(ck, data, rules, docg):
                 ck.violation("index-stale-after:%s" % (x.get("after") or "parse"), "%s: when %s obtained its tokens of interest the index differed from a recompute; the last rule that changed the token list was %s" % (T.tag(o), x["rule"], x.get("after")), T.rep(o, None, rule=x["rule"], detail=x))
             else:
                 ck.violation("toi-not-a-slice:%s" % x["rule"], "%s: when %s obtained its tokens of interest: %s" % (T.tag(o), x["rule"], x["what"]), T.rep(o, None, rule=x["rule"], detail=x))
+        sh = o.get("shared_token_object")
+        if sh:
+            n += 1
+            ck.violation("token-object-shared:%s" % sh["rule"], "%s: after %s the same %s object stands at two positions of the token list: an index entry or a region of interest can no longer name one position, and what is written to one (code tags, indent) shows at the other" % (T.tag(o), sh["rule"], sh["class"]), T.rep(o, None, rule=sh["rule"], detail=sh))
     ck.sample({"c18_probe_findings": n})
     return {"probe_findings": n}
 
